@@ -91,6 +91,19 @@ HOLES = {"kobs": "env.observation", "kmask": "env.action_mask", "kact": "pi.acti
          "krew": "env.reward", "kterm": "env.terminal", "kboot": "env.observation", "kenv": "env.initial", "kpol": "pi.reset"}
 
 
+def _vary_action_box(E0, rng):
+    """native replays: bounded action boxes are replaced in turn by asymmetric and half-bounded ones (same shape), so that clipping against EACH bound matters"""
+    if not isinstance(E0.action_space, Box):
+        return E0
+    n = int(np.prod(E0.action_space.shape)) or 1
+    variants = [None, (np.linspace(0.0, -1.0, n), np.linspace(1.0, 3.0, n)), (np.full(n, 0.25), np.full(n, np.inf)), (np.full(n, -np.inf), np.full(n, -0.25)), (np.full(n, -0.1), np.full(n, 0.05))]
+    v = variants[int(rng.randint(len(variants)))]
+    if v is None:
+        return E0
+    shape = E0.action_space.shape
+    return eqx.tree_at(lambda e: e.action_space, E0, Box(jnp.asarray(v[0], jnp.float32).reshape(shape), jnp.asarray(v[1], jnp.float32).reshape(shape)))
+
+
 def native_replay_factory(cfg):
     """R1: real PPO/A2C.step, real MLPActorCriticPolicy (satisfies the policy interface contract), pseudo-random
     generic environment with forced terminal/truncate flags; the property is evaluated natively on the outputs."""
@@ -137,7 +150,7 @@ def native_replay_factory(cfg):
 
         # stage 2: generic (pseudo-random, key-insensitive) policy WITH a policy state; real step vs the spec, field by field
         def make_inputs2(rng):
-            E = build(mk_env())
+            E = build(_vary_action_box(mk_env(), rng))
             pol = GenericActorCriticPolicy(E.action_space, E.observation_space, theta=jnp.asarray(rng.randn(2), jnp.float32))
             st = kit.concrete_like(step_state_struct(E), rng)
             return mk_algo(), E, pol, st, jax.random.key(int(rng.randint(1 << 30)))
@@ -153,7 +166,7 @@ def native_replay_factory(cfg):
                 if not kit.trees_close(a, b):
                     problems.append(f"{nm}: real {kit.tolist(a)} != spec {kit.tolist(b)}")
             return (not problems), dict(problems=problems)
-        return kit.native_search(check2, make_inputs2, bool_names=("env.terminal", "env.truncate"), trials=3)
+        return kit.native_search(check2, make_inputs2, bool_names=("env.terminal", "env.truncate"), trials=10)
     return replay
 
 
